@@ -75,11 +75,36 @@ pub struct Judge {
     pub build: bool,
 }
 
+/// How a whole argument sequence is consumed from a fresh `evaluate_v` stream in one go
+/// (the consumer methods a caller may use instead of plain `next()`).
+#[derive(Clone, Copy, Debug, PartialEq, Eq)]
+pub enum BatchMode {
+    Collect,
+    Fold,
+    Count,
+    Last,
+    /// `nth(k)` then collect the rest
+    Nth(usize),
+    /// `size_hint()` first, then collect
+    SizeHint,
+    /// input handed over as a `Vec<f64>` (not the simulator's feed), collected
+    VecInput,
+}
+
+#[derive(Clone, Debug)]
+pub struct Batch {
+    pub func: usize,
+    pub mode: BatchMode,
+    pub xs: Vec<f64>,
+}
+
 #[derive(Clone, Debug)]
 pub struct CursorScn {
     pub funcs: Vec<FuncSpec>,
     pub clients: Vec<Client>,
     pub events: Vec<Ev>,
+    /// whole-sequence consumptions on fresh streams, executed after the events (C12)
+    pub batches: Vec<Batch>,
 }
 
 pub const NAN_VARIANTS: [u64; 4] = [
@@ -380,6 +405,102 @@ pub fn execute(scn: &CursorScn, judge: Judge, cov: &mut Cov, prog: &Progress) ->
                 prev_x[c] = None;
                 nan_seen[c] = false;
             }
+        }
+    }
+    // Whole-sequence consumptions on fresh streams.
+    for (bi, b) in scn.batches.iter().enumerate() {
+        if b.func >= funcs.len() || b.xs.iter().any(|x| x.is_nan()) {
+            continue;
+        }
+        prog.tick();
+        cov.events += 1;
+        let t = &*funcs[b.func];
+        let e = &ends[b.func];
+        // expected sequence: pointwise while non-decreasing, running-maximum segment otherwise
+        let want: Vec<Option<f64>> = match guard(|| {
+            let mut want: Vec<Option<f64>> = Vec::with_capacity(b.xs.len());
+            let mut rm: Option<f64> = None;
+            for &x in &b.xs {
+                let mono = rm.map_or(true, |m| x >= m);
+                let m = match rm {
+                    Some(m) if m > x => m,
+                    _ => x,
+                };
+                rm = Some(m);
+                let si = select(e, m);
+                let model_ok = same(t.piece(si, m), t.direct(m));
+                want.push(if mono {
+                    Some(t.direct(x))
+                } else if model_ok {
+                    Some(t.piece(si, x))
+                } else {
+                    None
+                });
+            }
+            want
+        }) {
+            Ok(w) => w,
+            Err(p) => {
+                return RunResult::Violation {
+                    class: "panic".into(),
+                    detail: format!("batch {bi}: Piecewise::evaluate panicked: {p}"),
+                }
+            }
+        };
+        let got = match guard(|| t.stream_batch(b.mode, &b.xs)) {
+            Ok(g) => g,
+            Err(p) => {
+                return RunResult::Violation {
+                    class: "panic".into(),
+                    detail: format!("batch {bi}: evaluate_v consumed with {:?} over {} arguments panicked: {p}", b.mode, b.xs.len()),
+                }
+            }
+        };
+        cov.hit("stream_batches");
+        if !judge.streams {
+            continue;
+        }
+        if got.pulled != b.xs.len() as u64 && !matches!(b.mode, BatchMode::VecInput) {
+            return RunResult::Violation {
+                class: "laziness".into(),
+                detail: format!("batch {bi}: consuming evaluate_v with {:?} pulled {} of the {} arguments", b.mode, got.pulled, b.xs.len()),
+            };
+        }
+        if let Some(c) = got.count {
+            if c != b.xs.len() {
+                return RunResult::Violation {
+                    class: "mismatch".into(),
+                    detail: format!("batch {bi}: evaluate_v(..).count() = {c} for {} arguments", b.xs.len()),
+                };
+            }
+        }
+        if let Some((lo, hi)) = got.size_hint {
+            if lo > b.xs.len() || hi.map_or(false, |h| h < b.xs.len()) {
+                return RunResult::Violation {
+                    class: "mismatch".into(),
+                    detail: format!("batch {bi}: evaluate_v(..).size_hint() = ({lo}, {hi:?}) excludes the actual length {}", b.xs.len()),
+                };
+            }
+        }
+        for (idx, val) in &got.values {
+            dig.f(*val);
+            if let Some(Some(w)) = want.get(*idx) {
+                if !same(*w, *val) {
+                    return RunResult::Violation {
+                        class: "mismatch".into(),
+                        detail: format!(
+                            "batch {bi}: evaluate_v consumed with {:?} yielded {val:e} as result #{idx} (argument {:e}); expected {w:e}",
+                            b.mode, b.xs[*idx]
+                        ),
+                    };
+                }
+            }
+        }
+        if got.values.len() != got.expected_values {
+            return RunResult::Violation {
+                class: "mismatch".into(),
+                detail: format!("batch {bi}: evaluate_v consumed with {:?} produced {} results where {} were due", b.mode, got.values.len(), got.expected_values),
+            };
         }
     }
     RunResult::Clean { digest: dig.0 }
@@ -704,7 +825,53 @@ pub fn gen_scenario(rng: &mut Rng, profile: Profile, tier: Tier) -> CursorScn {
             }
         }
     }
-    CursorScn { funcs, clients, events }
+    // whole-sequence consumptions (streams profile only)
+    let mut batches = Vec::new();
+    if profile == Profile::Streams {
+        let nb = *rng.pick(&[0usize, 0, 1, 1, 2]);
+        for _ in 0..nb {
+            let func = rng.usize_in(0, nfuncs - 1);
+            let e = &steer[func];
+            let w = MoveWeights::draw(rng);
+            let mono = rng.chance(1, 2);
+            let len = match rng.below(20) {
+                0 => 0,
+                1..=12 => rng.usize_in(1, 6),
+                13..=18 => rng.usize_in(7, 24),
+                _ => rng.usize_in(25, 300),
+            };
+            let mut xs: Vec<f64> = Vec::with_capacity(len);
+            let mut prev = None;
+            let mut rm: Option<f64> = None;
+            for _ in 0..len {
+                let mut x = gen_query(rng, e, prev, &w);
+                if mono {
+                    if let Some(m) = rm {
+                        if x < m {
+                            x = if rng.chance(1, 2) { m } else { gen_forward(rng, e, m) };
+                        }
+                    }
+                }
+                rm = Some(match rm {
+                    Some(m) if m > x => m,
+                    _ => x,
+                });
+                prev = Some(x);
+                xs.push(x);
+            }
+            let mode = match rng.below(8) {
+                0 => BatchMode::Collect,
+                1 => BatchMode::Fold,
+                2 => BatchMode::Count,
+                3 => BatchMode::Last,
+                4 | 5 => BatchMode::Nth(rng.usize_in(0, len.max(1))),
+                6 => BatchMode::SizeHint,
+                _ => BatchMode::VecInput,
+            };
+            batches.push(Batch { func, mode, xs });
+        }
+    }
+    CursorScn { funcs, clients, events, batches }
 }
 
 fn gen_forward(rng: &mut Rng, ends: &[f64], m: f64) -> f64 {
@@ -751,6 +918,9 @@ pub fn order_type(ends_per_func: &[Vec<f64>], scn: &CursorScn) -> u64 {
             }
         }
     }
+    for b in &scn.batches {
+        vals.extend(b.xs.iter().copied().filter(|x| !x.is_nan()));
+    }
     vals.sort_by(|a, b| a.partial_cmp(b).unwrap());
     vals.dedup_by(|a, b| a == b);
     let rank = |x: f64| -> u64 {
@@ -783,6 +953,21 @@ pub fn order_type(ends_per_func: &[Vec<f64>], scn: &CursorScn) -> u64 {
             Ev::Restart { c } => d.word(4 + 8 * c as u64),
         }
     }
+    for b in &scn.batches {
+        d.word(0xB0 + b.func as u64);
+        d.word(match b.mode {
+            BatchMode::Collect => 0,
+            BatchMode::Fold => 1,
+            BatchMode::Count => 2,
+            BatchMode::Last => 3,
+            BatchMode::Nth(k) => 16 + k as u64,
+            BatchMode::SizeHint => 4,
+            BatchMode::VecInput => 5,
+        });
+        for &x in &b.xs {
+            d.word(rank(x));
+        }
+    }
     d.0
 }
 
@@ -794,7 +979,7 @@ fn nontrivial(scn: &CursorScn) -> bool {
             per_client[ev.client()] += 1;
         }
     }
-    multi && per_client.iter().any(|&k| k >= 2)
+    multi && (per_client.iter().any(|&k| k >= 2) || scn.batches.iter().any(|b| b.xs.len() >= 2))
 }
 
 // ---------------------------------------------------------------------------
@@ -925,6 +1110,7 @@ pub fn gen_small_scope(rng: &mut Rng) -> CursorScn {
         }],
         clients: vec![Client { func: 0, kind: ClientKind::Eval }],
         events,
+        batches: vec![],
     }
 }
 
@@ -979,7 +1165,11 @@ fn drop_unused(scn: &CursorScn) -> Option<CursorScn> {
     if used_c.iter().all(|&u| u) && used_f.iter().all(|&u| u) {
         return None;
     }
+    if !scn.batches.is_empty() {
+        return None; // batches refer to functions by index; they are dropped by their own shrink step first
+    }
     Some(CursorScn {
+        batches: vec![],
         funcs: scn.funcs.iter().zip(&used_f).filter(|(_, &u)| u).map(|(f, _)| f.clone()).collect(),
         clients: clients
             .into_iter()
@@ -1013,6 +1203,9 @@ fn rank_normalise(scn: &CursorScn) -> Option<CursorScn> {
             }
         }
     }
+    for b in &scn.batches {
+        vals.extend(b.xs.iter().copied().filter(|x| !x.is_nan()));
+    }
     vals.sort_by(|a, b| a.partial_cmp(b).unwrap());
     vals.dedup_by(|a, b| a == b);
     let map = |x: f64| -> f64 {
@@ -1038,6 +1231,13 @@ fn rank_normalise(scn: &CursorScn) -> Option<CursorScn> {
             *ev = ev.with_arg(m);
         }
     }
+    for b in &mut out.batches {
+        for x in b.xs.iter_mut() {
+            let m = map(*x);
+            changed |= m.to_bits() != x.to_bits();
+            *x = m;
+        }
+    }
     if changed {
         Some(out)
     } else {
@@ -1060,6 +1260,31 @@ pub fn shrink_candidates(scn: &CursorScn) -> Vec<CursorScn> {
             start += chunk;
         }
         chunk /= 2;
+    }
+    // 1b. drop / shorten whole-sequence batches
+    for i in 0..scn.batches.len() {
+        let mut s = scn.clone();
+        s.batches.remove(i);
+        out.push(s);
+    }
+    for (i, b) in scn.batches.iter().enumerate() {
+        let n = b.xs.len();
+        let mut chunk = n / 2;
+        while chunk >= 1 {
+            let mut start = 0;
+            while start < n {
+                let mut s = scn.clone();
+                s.batches[i].xs.drain(start..(start + chunk).min(n));
+                out.push(s);
+                start += chunk;
+            }
+            chunk /= 2;
+        }
+        if b.mode != BatchMode::Collect {
+            let mut s = scn.clone();
+            s.batches[i].mode = BatchMode::Collect;
+            out.push(s);
+        }
     }
     // 2. drop unused clients / functions
     if let Some(s) = drop_unused(scn) {
@@ -1108,6 +1333,19 @@ pub fn scn_to_json(scn: &CursorScn) -> Value {
             Ev::Pull { c } => json!({"op": "pull", "client": c}),
             Ev::Restart { c } => json!({"op": "restart", "client": c}),
         }).collect::<Vec<_>>(),
+        "batches": scn.batches.iter().map(|b| json!({
+            "function": b.func,
+            "consume_with": match b.mode {
+                BatchMode::Collect => json!("collect"),
+                BatchMode::Fold => json!("fold"),
+                BatchMode::Count => json!("count"),
+                BatchMode::Last => json!("last"),
+                BatchMode::Nth(k) => json!({"nth": k}),
+                BatchMode::SizeHint => json!("size_hint+collect"),
+                BatchMode::VecInput => json!("vec_input+collect"),
+            },
+            "xs": fj_list(&b.xs),
+        })).collect::<Vec<_>>(),
     })
 }
 
@@ -1156,7 +1394,33 @@ pub fn scn_from_json(v: &Value) -> Result<CursorScn, String> {
             return Err("client refers to a missing function".into());
         }
     }
-    Ok(CursorScn { funcs, clients, events })
+    let batches = match v.get("batches").and_then(|b| b.as_array()) {
+        None => vec![],
+        Some(a) => a
+            .iter()
+            .map(|b| {
+                let func = jusize(b, "function")?;
+                if func >= funcs.len() {
+                    return Err("batch refers to a missing function".to_string());
+                }
+                let mode = match b.get("consume_with") {
+                    Some(Value::String(s)) => match s.as_str() {
+                        "collect" => BatchMode::Collect,
+                        "fold" => BatchMode::Fold,
+                        "count" => BatchMode::Count,
+                        "last" => BatchMode::Last,
+                        "size_hint+collect" => BatchMode::SizeHint,
+                        "vec_input+collect" => BatchMode::VecInput,
+                        x => return Err(format!("bad consume_with {x}")),
+                    },
+                    Some(o) => BatchMode::Nth(jusize(o, "nth")?),
+                    None => return Err("missing consume_with".into()),
+                };
+                Ok(Batch { func, mode, xs: jf_list(b.get("xs").ok_or("missing xs")?)? })
+            })
+            .collect::<Result<Vec<_>, String>>()?,
+    };
+    Ok(CursorScn { funcs, clients, events, batches })
 }
 
 // ---------------------------------------------------------------------------
